@@ -123,13 +123,20 @@ def run(ctx, env):
             c = peel(an.simp(cs[0]["term"][1]))
             inner = cs[0]["term"][2]
             prim_ok = inner[0] == "prim" and inner[2] == 4 and inner[3] == "be"
+            # the condition, as a function of the raw first u16 of the specifier, must be exactly "bit 15 is set":
+            # decided by evaluating the extracted expression on every u16 value (any spelling: > 32767, >= 0x8000,
+            # & 0x8000 != 0, >> 15 == 1, ..)
             cok = False
-            if c[0] == "binop":
-                k = const_eval(c[3])
-                x = peel(c[2])
-                first = Lt["steps"][0]
-                from_type = x[0] == "tfield" and x[2] == 1 and x[1][0] == "ok" and peel(x[1][1])[1] == first["block"]
-                cok = from_type and ((c[1] == "Gt" and k == {32767}) or (c[1] == "Ge" and k == {32768}))
+            first = Lt["steps"][0]
+            raw = ("tfield", ("ok", first["call"]), 1)
+            f = compile_scalar(c, canon(peel(raw)))
+            if f is None:
+                f = compile_scalar(c, canon(raw))
+            if f is not None and find(c, lambda n: n[0] == "ok" and peel(n[1])[0] == "call" and peel(n[1])[1] == first["block"]):
+                try:
+                    cok = all(f(x) == (1 if x >= 32768 else 0) for x in range(65536))
+                except Exception:
+                    cok = False
             ok = bool(prim_ok and cok and cs[0]["fields"] == ["enterprise_number"])
             why = "enterprise_number = cond(%s, %s)" % (canon(c)[:120], term_s(inner)[:60])
         ctx.ob("R5.4", IP + "TemplateField", "enterprise-bit-condition", ok, why)
